@@ -181,12 +181,27 @@ fn gen_case(t: &mut Tape) -> (GameMode, Vec<PathControlPoint>, Option<f64>, Vec<
     let mode = gen_mode(t);
     let (pts, _) = gen_points_ex(t, 10, true, true);
     let nd = Curve::new(mode, &pts, None, &mut CurveBuffers::default()).dist();
-    let l = match t.weighted(&[3, 2, 2, 1, 1]) {
+    let l = match t.weighted(&[3, 2, 2, 1, 1, 2]) {
         0 => None,
         1 => Some(nd * (0.05 + 0.9 * t.unit())),
         2 => Some(nd * 1.5 + 10.0),
         3 => Some(*t.pick(&[1e-3, 1.0, 131072.0])),
-        _ => Some(nd),
+        4 => Some(nd),
+        _ => {
+            // exactly the cumulative length of one of the natural curve's vertices (bit-equal), or one ulp beside it
+            let nat = Curve::new(mode, &pts, None, &mut CurveBuffers::default());
+            let ls = nat.lengths();
+            if ls.is_empty() {
+                None
+            } else {
+                let x = ls[t.below(ls.len())];
+                Some(match t.below(4) {
+                    0 => next_up(x),
+                    1 => next_down(x),
+                    _ => x,
+                })
+            }
+        }
     }
     .filter(|l| *l > 0.0 && l.is_finite());
     let n = t.below(17);
